@@ -33,6 +33,7 @@ type c16Case struct {
 
 func genC16(t *rapid.T) c16Case {
 	c := c16Case{Cfg: genLimitCfg(t, []string{"aimd", "vegas", "gradient", "gradient2", "settable", "fixed"}, true)}
+	c.Cfg.WithRegistry = rapid.IntRange(0, 2).Draw(t, "withRegistry") == 0
 	genUnsetSafe(t, &c.Cfg)
 	if c.Cfg.Algo == "aimd" && c.Cfg.Ctor == "" && rapid.IntRange(0, 7).Draw(t, "aimdAtInt32") == 0 {
 		c.Cfg.Initial = math.MaxInt32 - rapid.IntRange(0, 20).Draw(t, "belowMaxInt32") // AIMD has no ceiling: the steps across 2^31-1
